@@ -68,7 +68,7 @@ Proof.
 Qed.
 
 (* ---------------------------------------------------------------- no captured bytes *)
-Ltac nors := intros h r l rsv r' H; cbv beta delta [dec_ftyp dec_free dec_mfhd dec_tfhd dec_tfdt dec_trun dec_trex dec_stts
+Ltac nors := intros h r l rsv r' H; cbv beta delta [dec_ftyp dec_free dec_empty dec_b4 dec_mfhd dec_tfhd dec_tfdt dec_trun dec_trex dec_stts
   dec_stsc dec_stsz dec_tab dec_sdtp dec_ctts dec_elst dec_saiz dec_saio dec_sbgp dec_prft dec_frma dec_vmhd dec_fullonly
   dec_mfro dec_mehd dec_pssh dec_url dec_btrt dec_pasp dec_clap dec_schm dec_cslg dec_senc dec_emsg dec_kind dec_stsd dec_dref
   dec_subs] in H;
@@ -76,6 +76,8 @@ Ltac nors := intros h r l rsv r' H; cbv beta delta [dec_ftyp dec_free dec_mfhd d
 
 Lemma norsv_ftyp : norsv dec_ftyp. Proof. nors. Qed.
 Lemma norsv_free : norsv dec_free. Proof. nors. Qed.
+Lemma norsv_empty : norsv dec_empty. Proof. nors. Qed.
+Lemma norsv_b4 : norsv dec_b4. Proof. nors. Qed.
 Lemma norsv_mfhd : norsv dec_mfhd. Proof. nors. Qed.
 Lemma norsv_tfhd : norsv dec_tfhd. Proof. nors. Qed.
 Lemma norsv_tfdt : norsv dec_tfdt. Proof. nors. Qed.
@@ -157,6 +159,10 @@ Lemma psized_ftyp : psized dec_ftyp.
 Proof. intros h r l rsv r' Hok Hnm H. unfold dec_ftyp in H. run H. inj_pret H. cbn [leaf_size_guard]. eq4. Qed.
 Lemma psized_free : psized dec_free.
 Proof. intros h r l rsv r' Hok Hnm H. unfold dec_free in H. run H. inj_pret H. cbn [leaf_size_guard]. eq4. Qed.
+Lemma psized_empty : psized dec_empty.
+Proof. intros h r l rsv r' Hok Hnm H. unfold dec_empty in H. inj_pret H. cbn [leaf_size_guard]. eq4. Qed.
+Lemma psized_b4 : psized dec_b4.
+Proof. intros h r l rsv r' Hok Hnm H. unfold dec_b4 in H. run H. inj_pret H. cbn [leaf_size_guard]. eq4. Qed.
 Lemma psized_frma : psized dec_frma.
 Proof. intros h r l rsv r' Hok Hnm H. unfold dec_frma in H. run H. inj_pret H. cbn [leaf_size_guard]. eq4. Qed.
 Lemma psized_fullonly : psized dec_fullonly.
@@ -809,6 +815,8 @@ Ltac sol L Lo Nr S := apply stable_of_local; [exact L|exact Lo|exact Nr|first [e
 
 Lemma stable_ftyp : leaf_stable dec_ftyp. Proof. sol lossless_ftyp local_ftyp norsv_ftyp psized_ftyp. Qed.
 Lemma stable_free : leaf_stable dec_free. Proof. sol lossless_free local_free norsv_free psized_free. Qed.
+Lemma stable_empty : leaf_stable dec_empty. Proof. sol lossless_empty local_empty norsv_empty psized_empty. Qed.
+Lemma stable_b4 : leaf_stable dec_b4. Proof. sol lossless_b4 local_b4 norsv_b4 psized_b4. Qed.
 Lemma stable_mfhd : leaf_stable dec_mfhd. Proof. sol lossless_mfhd local_mfhd norsv_mfhd psized_mfhd. Qed.
 Lemma stable_tfhd : leaf_stable dec_tfhd. Proof. sol lossless_tfhd local_tfhd norsv_tfhd psized_tfhd. Qed.
 Lemma stable_tfdt : leaf_stable dec_tfdt. Proof. sol lossless_tfdt local_tfdt norsv_tfdt psized_tfdt. Qed.
@@ -850,10 +858,13 @@ Proof. apply pre_stable_of_local; [exact lossless_stsd|exact local_stsd|exact no
 Lemma pstable_dref : pre_stable dec_dref.
 Proof. apply pre_stable_of_local; [exact lossless_dref|exact local_dref|exact norsv_dref|exact psized_dref]. Qed.
 
+Lemma pstable_fullonly : pre_stable dec_fullonly.
+Proof. apply pre_stable_of_local; [exact lossless_fullonly|exact local_fullonly|exact norsv_fullonly|exact psized_fullonly]. Qed.
+
 Lemma leaf_table_stable : Forall (fun e => leaf_stable (snd e)) leaf_table.
 Proof.
   unfold leaf_table. repeat apply Forall_cons; try apply Forall_nil; cbn [snd];
-    first [ exact stable_ftyp | exact stable_free | exact stable_mdat | exact stable_mfhd | exact stable_tfhd
+    first [ exact stable_ftyp | exact stable_free | exact stable_empty | exact stable_b4 | exact stable_mdat | exact stable_mfhd | exact stable_tfhd
           | exact stable_tfdt | exact stable_trun | exact (pre_leaf_stable _ pstable_mvhd)
           | exact (pre_leaf_stable _ pstable_tkhd) | exact (pre_leaf_stable _ pstable_sidx) | exact stable_trex
           | exact (pre_leaf_stable _ pstable_mdhd) | exact (pre_leaf_stable _ pstable_hdlr) | exact stable_stts
@@ -870,5 +881,5 @@ Qed.
 Lemma pre_table_stable : Forall (fun e => pre_stable (fst (snd e))) pre_table.
 Proof.
   unfold pre_table. repeat apply Forall_cons; try apply Forall_nil; cbn [fst snd];
-    first [ exact pstable_stsd | exact pstable_dref | exact pstable_visual | exact pstable_audio ].
+    first [ exact pstable_stsd | exact pstable_dref | exact pstable_visual | exact pstable_audio | exact pstable_fullonly ].
 Qed.
